@@ -19,7 +19,7 @@ func (vc *VC) lockOp(fr *Frame, n *Node, recv ssa.Value, op string, pos token.Po
 		return
 	}
 	vc.nilCheck(fr, n, lv, pos)
-	st := vc.load(n.env, lv)
+	st := vc.lockState(n.env, lv)
 	lockName := lockDesc(lv)
 	oblig := func(kind, f string) {
 		if !vc.lockOn {
@@ -32,20 +32,57 @@ func (vc *VC) lockOp(fr *Frame, n *Node, recv ssa.Value, op string, pos token.Po
 	switch op {
 	case "lock":
 		oblig("no-reentry", sEq(st, "0"))
-		vc.store(n, lv, "2")
+		vc.setLockState(n, lv, "2")
 	case "rlock":
 		oblig("no-reentry", sEq(st, "0"))
-		vc.store(n, lv, "1")
+		vc.setLockState(n, lv, "1")
 	case "unlock":
 		oblig("unlock-held-W", sEq(st, "2"))
-		vc.store(n, lv, "0")
+		vc.setLockState(n, lv, "0")
 	case "runlock":
 		oblig("runlock-held-R", sEq(st, "1"))
-		vc.store(n, lv, "0")
+		vc.setLockState(n, lv, "0")
 	}
 	if fr.lockEvents != nil {
 		*fr.lockEvents = append(*fr.lockEvents, op+" "+lockName)
 	}
+}
+
+// Lock state is keyed by the mutex's address, so that a mutex reached through a stored pointer
+// (tx.rwLock = &m.txLock) and through its owner (m.txLock) is one and the same lock.
+func (vc *VC) lockAddr(lv *LVal) string {
+	switch lv.kind {
+	case lvHeap:
+		// quantifier-free injective encoding: -(1024*ref + fieldId); object refs are positive, so field addresses
+		// never collide with refs of separately allocated cells
+		name := vc.heapMapName(lv.root, lv.path)
+		id, ok := vc.ptrFieldIDs[name]
+		if !ok {
+			vc.ptrFieldSeq++
+			id = vc.ptrFieldSeq
+			vc.ptrFieldIDs[name] = id
+		}
+		return app("-", app("+", app("*", "1024", lv.ref), fmt.Sprint(id)))
+	case lvCell:
+		return lv.ref
+	case lvLocal, lvGlobal:
+		vc.declare("ptr$"+lv.sv, "Int")
+		return smtName("ptr$" + lv.sv)
+	}
+	return "0"
+}
+
+func (vc *VC) lockVar() *SVar { return vc.svar("LockSt", "(Array Int Int)", nil) }
+
+func (vc *VC) lockState(env Env, lv *LVal) string {
+	return app("select", vc.cur(env, vc.lockVar().Name), vc.lockAddr(lv))
+}
+
+func (vc *VC) setLockState(n *Node, lv *LVal, v string) {
+	vc.lockVar()
+	old := vc.cur(n.env, "LockSt")
+	nv := vc.bump(n.env, "LockSt")
+	n.assume(sEq(nv, app("store", old, vc.lockAddr(lv), v)))
 }
 
 func lockDesc(lv *LVal) string {
@@ -101,7 +138,7 @@ func (vc *VC) guardOblig(fr *Frame, n *Node, g *GuardDecl, lv *LVal, write, atom
 			return
 		}
 		mlv := vc.fieldOf(&LVal{kind: lvHeap, ref: lv.ref, root: lv.root, typ: lv.root}, lv.root, idx)
-		state := vc.load(n.env, mlv)
+		state := vc.lockState(n.env, mlv)
 		if write {
 			f = sEq(state, "2")
 		} else {
@@ -399,7 +436,7 @@ func (vc *VC) lockReqState(env Env, arg string, r lockReq) string {
 		base := &LVal{kind: lvHeap, ref: ref, root: st.st, typ: st.st}
 		lv := vc.fieldOf(base, st.st, st.field)
 		if i == len(r.steps)-1 {
-			return vc.load(env, lv)
+			return vc.lockState(env, lv)
 		}
 		if isAggregate(lv.typ) {
 			// nested value struct: continue from the sub-object
@@ -436,49 +473,7 @@ func (vc *VC) assertLockReqs(fr *Frame, n *Node, callee *ssa.Function, args []st
 }
 
 func (p *Prog) computeLockMaps() {
-	p.lockMaps = map[string]bool{}
-	srt := newSorter()
-	seen := map[string]bool{}
-	var walk func(root, t types.Type, path []string)
-	walk = func(root, t types.Type, path []string) {
-		s, ok := t.Underlying().(*types.Struct)
-		if !ok || !isAggregate(t) {
-			return
-		}
-		for i := 0; i < s.NumFields(); i++ {
-			f := s.Field(i)
-			np := append(append([]string{}, path...), f.Name())
-			if isLockType(f.Type()) {
-				p.lockMaps["H$"+typeName(root)+"$"+strings.Join(np, ".")] = true
-				continue
-			}
-			if isAggregate(f.Type()) {
-				if _, named := types.Unalias(f.Type()).(*types.Named); named {
-					if !seen[typeName(f.Type())] {
-						seen[typeName(f.Type())] = true
-						walk(f.Type(), f.Type(), nil)
-					}
-				} else {
-					walk(root, f.Type(), np)
-				}
-			}
-		}
-	}
-	_ = srt
-	for path, pk := range p.pkgs {
-		if !strings.HasPrefix(path, repoPrefix) || pk.Types == nil {
-			continue
-		}
-		sc := pk.Types.Scope()
-		for _, name := range sc.Names() {
-			if tn, ok := sc.Lookup(name).(*types.TypeName); ok {
-				if !seen[typeName(tn.Type())] {
-					seen[typeName(tn.Type())] = true
-					walk(tn.Type(), tn.Type(), nil)
-				}
-			}
-		}
-	}
+	p.lockMaps = map[string]bool{"LockSt": true}
 	p.computeLockReqs()
 }
 
